@@ -32,6 +32,8 @@ type Engine struct {
 	RecDefs   map[string]*recDef
 	Active    map[string]*Contract
 	Epoch     map[string]bool
+	Lemmas      []*Lemma
+	PreludeBase string // prelude without the lemma statements
 }
 
 func loadEngine(repo, verif string) (*Engine, error) {
@@ -85,6 +87,17 @@ func loadEngine(repo, verif string) (*Engine, error) {
 		}
 	}
 	e.Prelude, e.RecDefs = splitRecDefs(pb.String())
+	e.PreludeBase = e.Prelude
+	lem, err := loadLemmas(filepath.Join(verif, "spec", "lemmas"))
+	if err != nil {
+		return nil, err
+	}
+	e.Lemmas = lem
+	relaxDefs = e.RecDefs
+	relaxPats = preludeAxiomPats(e.PreludeBase)
+	for _, l := range lem {
+		e.Prelude += l.Statement
+	}
 
 	// contracts
 	cpath := filepath.Join(repo, "contracts_verif.go")
